@@ -343,6 +343,11 @@ impl CodecGraph {
                                 out.viol.push((self.sig("csid-range"), format!("csid {}", ci.csid)));
                                 return;
                             }
+                            let minimal = if ci.csid <= 63 { 1 } else if ci.csid <= 319 { 2 } else { 3 };
+                            if ci.csid_form != minimal {
+                                out.viol.push((self.sig("csid-not-minimally-encoded"), format!("csid {} written in its {}-byte form", ci.csid, ci.csid_form)));
+                                return;
+                            }
                         }
                     }
                 }
@@ -662,6 +667,50 @@ pub fn run(run: &Run, mode: Mode) {
                           "force_uncompressed": sl.forces, "can_be_dropped": sl.drops, "set_chunk_sizes": sl.setchunks, "initial_chunk_size": sl.init_chunk},
             "actions_per_state": g.actions(&St{ser: ChunkSerializer::new(), de: None, spec: None}).len(),
         }));
+    }
+    // every message type id (the serializer picks the chunk stream by type): short scripted histories per type
+    {
+        let sl = Slice { name: "all-type-ids", types: vec![], msids: vec![1], tss: vec![0], lens: vec![3], forces: vec![false], drops: vec![false], setchunks: vec![], init_chunk: Some(2) };
+        let g = CodecGraph { mode, slice: sl.clone(), counters: Counters::new(&NAMES) };
+        let mut swept = 0u64;
+        if let Ok(init) = init_state(mode, &sl, &g) {
+            for t in 0..=255u8 {
+                if t == 1 {
+                    continue; // a Set Chunk Size body changes the receiver's framing: only sent through set_max_chunk_size
+                }
+                for partner in [t.wrapping_add(1), 20, 8, 4] {
+                    if partner == 1 || partner == t {
+                        continue;
+                    }
+                    let script: Vec<Act> = vec![
+                        Act::Msg { ty: t, msid: 1, ts: 0, len: 3, force: false, drop: false, deliver: true },
+                        Act::Msg { ty: partner, msid: 1, ts: 10, len: 3, force: false, drop: false, deliver: true },
+                        Act::Msg { ty: t, msid: 1, ts: 20, len: 3, force: false, drop: false, deliver: true },
+                        Act::Msg { ty: t, msid: 1, ts: 30, len: 3, force: false, drop: mode == Mode::C08, deliver: mode != Mode::C08 },
+                        Act::Msg { ty: t, msid: 1, ts: 40, len: 5, force: false, drop: false, deliver: true },
+                        Act::Msg { ty: partner, msid: 2, ts: 40, len: 5, force: false, drop: false, deliver: true },
+                    ];
+                    let mut cur = init.clone();
+                    let mut done: Vec<Value> = Vec::new();
+                    for a in script.iter() {
+                        let o = g.step(&cur, a);
+                        total_impl += o.impl_steps;
+                        total_trans += 1;
+                        done.push(g.describe(a));
+                        if let Some((sig, d)) = o.viol.into_iter().next() {
+                            run.violation(&sig, &d, json!({"slice": sl.name, "init_chunk_size": 2, "ops": done}));
+                            break;
+                        }
+                        cur = match o.succ.into_iter().next() {
+                            Some(x) => x,
+                            None => break,
+                        };
+                    }
+                    swept += 1;
+                }
+            }
+        }
+        run.count("type_id_scripts", swept);
     }
     // out-of-graph bounded cases: maximum-size messages
     if mode != Mode::C08 {
